@@ -30,7 +30,11 @@ RULE = ("(function level) ciphertexts are built by applying the public "
         "the encrypted premaster by each class; everything the server does "
         "afterwards (records emitted, alert, exception, point of failure) "
         "must equal the control 'well-formed encryption of another random "
-        "premaster'. non-trivial = ciphertext decrypting to a malformed EM; "
+        "premaster'; (pmsver) an honest client whose premaster carries each "
+        "of {offered, negotiated, foreign} version bytes at length 48 and "
+        "at wrong lengths (47, 49; thorough 2..117): only the offered / "
+        "negotiated version at length 48 may complete, everything else "
+        "ends at Finished with bad_record_mac. non-trivial = ciphertext decrypting to a malformed EM; "
         "distinct = (key, class, position, seed)")
 ASSUMPTIONS = [
     "functional equivalence only - no timing side channel is measured",
@@ -298,8 +302,9 @@ def check_pmsver(case):
     from tlslite.utils.cryptomath import getRandomBytes
     cmax, smax, pv = tuple(case["cmax"]), tuple(case["smax"]), \
         tuple(case["pv"])
+    plen = case.get("plen", 48)
     labels = ["pmsver", "c=%s" % sc.VERNAME[cmax], "s=%s" % sc.VERNAME[smax],
-              "pv=%d.%d" % pv]
+              "pv=%d.%d" % pv, "plen=%s" % ("48" if plen == 48 else "other")]
     kw = dict(keyExchangeNames=["rsa"], cipherNames=["aes128"],
               macNames=["sha"])
     cst = sc.mk_settings(minVersion=(3, 0), maxVersion=cmax, **kw)
@@ -307,7 +312,7 @@ def check_pmsver(case):
     orig = kxm.RSAKeyExchange.processServerKeyExchange
 
     def forged(self, srvPublicKey, serverKeyExchange):
-        pm = getRandomBytes(48)
+        pm = getRandomBytes(plen)
         pm[0], pm[1] = pv
         self.encPremasterSecret = srvPublicKey.encrypt(pm)
         return pm
@@ -321,6 +326,21 @@ def check_pmsver(case):
     neg = min(cmax, smax)
     srv = describe_exc(p.so.exc) if p.so.exc else p.so.state
     labels.append("server=" + srv)
+    if plen != 48:
+        # a well padded premaster of the wrong length is a malformation like
+        # any other, whatever its first two bytes say (RFC 5246 7.4.7.1)
+        if p.so.ok or p.co.ok:
+            return bad("premaster-length-oracle:%d:version-%s" % (
+                plen, "offered" if pv == cmax else "negotiated"
+                if pv == neg else "other"),
+                "a %d-byte premaster secret with version bytes %r was used: "
+                "the handshake completed (offered %s, negotiated %s)" % (
+                    plen, pv, sc.VERNAME[cmax], sc.VERNAME[neg]),
+                labels=labels)
+        if srv != "TLSLocalAlert(bad_record_mac)":
+            return bad("server-behaviour-depends-on-malformation:pmslen",
+                       "server ended with %s" % srv, labels=labels)
+        return good(labels=labels)
     if pv == cmax:
         if not p.both_ok:
             return bad("correct-premaster-version-rejected:%s/%s" % (
@@ -391,6 +411,12 @@ def explicit(tier, seed):
             for pv in vs + [(3, 4), (2, 0), (3, 255), (0, 0)]:
                 yield {"k": "pmsver", "cmax": list(cmax),
                        "smax": list(smax), "pv": list(pv)}
+            # wrong length with every version the server might compare with
+            for pv in sorted({cmax, min(cmax, smax), (3, 4)}):
+                for plen in (47, 49) + ((2, 46, 64, 117)
+                                        if tier == "thorough" else ()):
+                    yield {"k": "pmsver", "cmax": list(cmax),
+                           "smax": list(smax), "pv": list(pv), "plen": plen}
     for ver in ("ssl3", "tls10", "tls11", "tls12"):
         for cls in CLASSES:
             if cls in ("len_plus", "len_minus", "ge_n") and \
